@@ -373,7 +373,7 @@ func (r *Runner) scanEvents(res *abci.ExecTxResult, rec *Rec) {
 			n, _ := strconv.ParseUint(attr(e, packettypes.AttributeKeySequence), 10, 64)
 			if r.Apps != nil {
 				r.Apps.register(r.N.A(attr(e, packettypes.AttributeKeySrcChain)), r.N.A(attr(e, packettypes.AttributeKeyDstChain)), n,
-					r.absPort(attr(e, packettypes.AttributeKeyPort)), []byte(attr(e, packettypes.AttributeKeyData)))
+					r.N.A(attr(e, packettypes.AttributeKeyRelayChain)), r.absPort(attr(e, packettypes.AttributeKeyPort)), []byte(attr(e, packettypes.AttributeKeyData)))
 			}
 			rec.Sent = append(rec.Sent, []interface{}{r.N.A(attr(e, packettypes.AttributeKeySrcChain)), r.N.A(attr(e, packettypes.AttributeKeyDstChain)), n,
 				r.N.A(attr(e, packettypes.AttributeKeyRelayChain)), r.absPort(attr(e, packettypes.AttributeKeyPort)),
@@ -551,12 +551,18 @@ func (r *Runner) StepCore(ev *Event) *Rec {
 		n.dirty[ev.C] = true
 		return r.emit(ev, res, nil)
 	case "Recv":
+		if r.Apps != nil && r.Apps.Honest(ev) {
+			ev.Tag = "gen:as_really_sent"
+		}
 		p := r.pkt(ev.Pkt)
 		proof, ph, info := n.MakeProof(*ev.Proof, packettypes.CommitPacket(p))
 		msg := packettypes.NewMsgRecvPacket(p, proof, ph, n.Chains[ev.C].SenderAccounts[ev.Signer].SenderAccount.GetAddress())
 		res := n.Deliver(ev.C, ev.Signer, msg)
 		return r.emit(ev, res, info)
 	case "Ack":
+		if r.Apps != nil && r.Apps.Honest(ev) {
+			ev.Tag = "gen:as_really_sent"
+		}
 		p := r.pkt(ev.Pkt)
 		ack := r.ackFor(ev.Ack, ev.Pkt, ev.Proof.Chain)
 		proof, ph, info := n.MakeProof(*ev.Proof, packettypes.CommitAcknowledgement(ack))
